@@ -121,6 +121,10 @@ class ShuffleBase(Expr):
                 determine_column_projection(self, parent, dependents)
             )
             partitioning_index = self._partitioning_index
+            if isinstance(partitioning_index, Expr):
+                # shuffling on a separate collection: no column of the frame
+                # is needed for the partitioning
+                partitioning_index = []
 
             target = self.frame
             new_projection = [
